@@ -74,6 +74,9 @@ func genParse(g *G, repo string, n int, out io.Writer) {
 			base.Validations[k].Level = []string{"violation", "warning", "info"}[g.n(3)]
 		}
 		spec := ProfileSpec{Name: fmt.Sprintf("parse %d", i), Atoms: base.Atoms, Paths: base.Paths, Validations: base.Validations}
+		if g.coin(0.3) {
+			spec.Dangling = map[string][]string{g.pick([]string{"violation", "warning", "info"}): {"ghost"}, g.pick([]string{"violation", "warning", "info"}): {"removed-rule", "v0"}}
+		}
 		var w strings.Builder
 		(&ystyle{g: g, indent: 2, flowP: 0.3, comment: g.coin(0.3)}).block(&w, profileTree(g, spec, g.coin(0.7), []string{"ex", "q_1"}), 0)
 		text := w.String()
